@@ -1,5 +1,8 @@
 import Driver.Common
-/-! Driver of the `gossip` family (stub: no stream yet). -/
+import Driver.Gossip
+/-! Driver of the `gossip` family. -/
 
 def main (args : List String) : IO UInt32 :=
-  Drv.mainWith [] args
+  Drv.mainWith [
+    ("seed", Drv.Seed.stream)
+  ] args
